@@ -78,6 +78,20 @@ impl FixtureDatabase {
     pub fn scan_workspace_with_excludes(&self, root_path: &Path, exclude_patterns: &[Pattern]) {
         info!("Scanning workspace: {:?}", root_path);
 
+        // Hold cache eviction back until the scan is over (see evict_cache_if_needed)
+        struct ScanInProgress<'a>(&'a FixtureDatabase);
+        impl Drop for ScanInProgress<'_> {
+            fn drop(&mut self) {
+                self.0
+                    .scans_in_progress
+                    .fetch_sub(1, std::sync::atomic::Ordering::SeqCst);
+                self.0.evict_cache_if_needed();
+            }
+        }
+        self.scans_in_progress
+            .fetch_add(1, std::sync::atomic::Ordering::SeqCst);
+        let _scan_in_progress = ScanInProgress(self);
+
         // Store workspace root for editable install third-party detection
         *self.workspace_root.lock().unwrap() = Some(
             root_path
